@@ -72,7 +72,7 @@ func pow(b, e int) int {
 }
 
 func genHistory(t *rapid.T, withNames, withTableOps bool) history {
-	h := history{Cfg: histCfg{LAN: rapid.IntRange(0, 2).Draw(t, "lan"), Timing: rapid.IntRange(0, 2).Draw(t, "timing"), Quiet: rapid.SampledFrom([]int{0, 0, 1}).Draw(t, "quiet")}}
+	h := history{Cfg: histCfg{LAN: rapid.IntRange(0, 2).Draw(t, "lan"), Timing: rapid.IntRange(0, 2).Draw(t, "timing"), Quiet: rapid.SampledFrom([]int{0, 0, 1, 2}).Draw(t, "quiet")}}
 	n := rapid.IntRange(5, 60).Draw(t, "nops")
 	clientish := []int{mC1, mC1, mC2, mC2, mC3, mRouter}
 	anyMAC := []int{mC1, mC1, mC1, mC2, mC2, mC3, mRouter, mOwn, mMcast}
@@ -227,7 +227,7 @@ func TestC06(t *testing.T) {
 	}, func(tb drv.TB, h history) { runHist(tb, rec, "C06", "random", h, or, nt) })
 	// the known-finding shape keeps being exercised on its own (it must keep failing in the listed way only)
 	drv.Prop(t, rec, "dhcp-on-tracked-source", 300, 3000, func(t *rapid.T) history {
-		h := history{Cfg: histCfg{LAN: rapid.IntRange(0, 2).Draw(t, "lan"), Quiet: rapid.SampledFrom([]int{0, 0, 1}).Draw(t, "quiet")}}
+		h := history{Cfg: histCfg{LAN: rapid.IntRange(0, 2).Draw(t, "lan"), Quiet: rapid.SampledFrom([]int{0, 0, 1, 2}).Draw(t, "quiet")}}
 		h.Ops = append(h.Ops, hOp{K: "f4", Src: mC1, IP: i4A})
 		h.Ops = append(h.Ops, hOp{K: "dhcp", Src: mC1, IP: i4A, New: rapid.SampledFrom([]int{i4B, i4C}).Draw(t, "new"), Name: "n"})
 		return h
